@@ -543,6 +543,9 @@ def from_xsd(value: str, type_: Type[AnyXSDType]) -> AnyXSDType:  # workaround. 
     elif issubclass(type_, str):
         return type_(value)
     elif type_ is decimal.Decimal:
+        if not DECIMAL_RE.match(value):
+            # xs:decimal has neither exponents nor NaN/Infinity; Decimal() would also accept '1_0' and non-ASCII digits
+            raise ValueError(f"Cannot convert '{value}' to Decimal!")
         try:
             return decimal.Decimal(value)
         except decimal.InvalidOperation as e:
@@ -580,6 +583,7 @@ def from_xsd(value: str, type_: Type[AnyXSDType]) -> AnyXSDType:  # workaround. 
 # Leading and trailing XSD whitespace (space, tab, LF, CR) is removed by the whiteSpace facet 'collapse' of these types
 INTEGER_RE = re.compile(r'^[ \t\n\r]*[+\-]?[0-9]+[ \t\n\r]*$')
 FLOAT_RE = re.compile(r'^[ \t\n\r]*([+\-]?([0-9]+(\.[0-9]*)?|\.[0-9]+)([Ee][+\-]?[0-9]+)?|[+\-]?INF|NaN)[ \t\n\r]*$')
+DECIMAL_RE = re.compile(r'^[ \t\n\r]*[+\-]?([0-9]+(\.[0-9]*)?|\.[0-9]+)[ \t\n\r]*$')
 DURATION_RE = re.compile(r'^(-?)P(\d+Y)?(\d+M)?(\d+D)?(T(\d+H)?(\d+M)?((\d+)(\.\d+)?S)?)?$')
 DATETIME_RE = re.compile(r'^(-?)(\d\d\d\d)-(\d\d)-(\d\d)T(\d\d):(\d\d):(\d\d)(\.\d+)?([+\-](\d\d):(\d\d)|Z)?$')
 TIME_RE = re.compile(r'^(\d\d):(\d\d):(\d\d)(\.\d+)?([+\-](\d\d):(\d\d)|Z)?$')
